@@ -211,6 +211,12 @@ theorem create_tail_inv {s : St} (h : Inv s) (id : Id) (w : AW) :
     simp only [hf, List.any_eq_true, decide_eq_true_eq]
     exact ⟨_, hm, rfl⟩
 
+/-- **read_only_no_change**: GetWalletSeed and ViewSecrets never change memory, disk, fingerprints or
+the unloaded set, whether they succeed or fail -/
+theorem read_only_no_change (s : St) (id : Id) (pw : Pw) :
+    (step s (.getSeed id pw)).1 = s ∧ (step s (.view id pw)).1 = s := by
+  constructor <;> simp only [step] <;> (repeat' split) <;> rfl
+
 /-- every operation preserves the invariant -/
 theorem step_inv (s : St) (op : Op) (h : Inv s) : Inv (step s op).1 := by
   cases op with
@@ -282,6 +288,14 @@ theorem step_inv (s : St) (op : Op) (h : Inv s) : Inv (step s op).1 := by
     split; · exact h
     split; · exact h
     exact commit_inv h id w _ hw rfl rfl
+  | getSeed id pw =>
+    simp only [step]
+    repeat' split
+    all_goals exact h
+  | view id pw =>
+    simp only [step]
+    repeat' split
+    all_goals exact h
   | unload id =>
     simp only [step]
     split; · exact h
